@@ -21,7 +21,7 @@ from .oracles import check_views
 from .sched import Scheduler
 from .world import DEFAULT_KNOBS, Knobs, ShortReadStream, Violation, World, hkey, make_config, make_pool_specs
 
-READ_KINDS = ['single', 'bulk', 'bulk_all', 'has', 'meta', 'stream_seek', 'list', 'single_meta']
+READ_KINDS = ['single', 'bulk', 'bulk_all', 'has', 'meta', 'stream_seek', 'list', 'single_meta', 'bulk_stream_seek', 'bulk_stream_seek']
 
 
 def gen_policy(rng):
@@ -233,6 +233,25 @@ def reader_main(world, side, shared, spec, lib):  # pylint: disable=too-many-sta
             for key, val in res.items():
                 if val is not None:
                     found[key] = val
+        elif kind == 'bulk_stream_seek':
+            # several streams from one bulk call, each used with random access (forces the loose cache of compressed
+            # packed objects) while the packer may move the objects between the index lookup and the file opens
+            rng = random.Random(op['seed'])
+            with handle.get_objects_stream_and_meta(keys, skip_if_missing=op['skip']) as triplets:
+                for key, stream, meta in triplets:
+                    if stream is None:
+                        continue
+                    head = stream.read(rng.choice([0, 1, 2]))
+                    end = stream.seek(0, 2)
+                    stream.seek(-min(end, rng.choice([1, 3, 8])), 1)
+                    tail = stream.read()
+                    stream.seek(0)
+                    whole = stream.read()
+                    if end != len(whole) or not whole.startswith(head) or not whole.endswith(tail) or meta.size != len(whole):
+                        shared.violations.append(
+                            ('wrong-bytes', f'{actor.name}: bulk_stream_seek key={key[:12]}: seek(0,2)={end}, read {len(whole)} bytes, meta.size={meta.size}, head/tail inconsistent')
+                        )
+                    found[key] = whole
         elif kind == 'has':
             res = handle.has_objects(keys)
             for key, val in zip(keys, res):
